@@ -15,7 +15,7 @@ from decimal import Decimal
 from fractions import Fraction
 
 import runner
-from common import chunks, crash_signature, panic_signature, rng_for
+from common import chunks, crash_signature, panic_signature, rng_for, warm
 
 LEVEL = "exploration"
 
@@ -510,7 +510,7 @@ def run(rep, tier, seed):
             if b is not None:
                 entries.append(["b%d" % k, {"n": b}])
             texts.append(FEEL[op].replace("a", "a%d" % k, 1).replace("(a,", "(a%d," % k).replace("b", "b%d" % k) if False else _feel_text(op, k))
-        fcases.append({"op": "evalmany", "scope": [entries], "texts": texts})
+        fcases.append(warm({"op": "evalmany", "scope": [entries], "texts": texts}))
         fmeta.append(group)
     variants = ["dbg", "asan"]
     rep.extra["variants"] = []
@@ -596,6 +596,8 @@ def _judge_all(rep, variant, level, cases, meta, results):
             if isinstance(r, dict) and "panic" in r:
                 rep.violation(panic_signature(r["panic"]) + ":op=" + op, "panic in %s(%s, %s): %s" % (op, a, b, r["panic"].get("msg")), _replay(variant, level, op, a, b, k, case))
                 continue
+            if level == "feel" and isinstance(r, dict) and "rep_diff" in r:
+                rep.violation("repeated-evaluation-differs:op=%s" % op, "%s(%s, %s) evaluated twice by one prepared evaluator over the same scope: %s" % (op, a, b, json.dumps(r["rep_diff"])[:300]), _replay(variant, level, op, a, b, k, case))
             if level == "feel":
                 if "v" not in r:
                     rep.violation("no-value:op=%s" % op, "FEEL %s did not evaluate: %s" % (FEEL[op], json.dumps(r)[:300]), _replay(variant, level, op, a, b, k, case))
